@@ -217,6 +217,12 @@ func (c *Conn) waitCloseHandshake() error {
 		return c.closeReceived
 	}
 
+	// From here on the rest of the message in progress and every later message
+	// is discarded without the message reader knowing. A Read that races with
+	// Close must fail from now on, also if it gets readMu after us and before
+	// the connection is closed: it would take frame headers for payload.
+	c.readDiscarding = true
+
 	err = c.discardPayload(ctx, c.msgReader.payloadLength)
 	if err != nil {
 		return err
